@@ -1522,7 +1522,10 @@ impl<'t, 'b> G<'t, 'b> {
                 if self.cfg.prints && self.t.chance(1, 4) {
                     body.push(Stmt::Print { id: self.id(), values: vec![Expr::Capture { id: self.id(), name: c.name.clone() }] });
                 } else {
-                    let new = format!("_{}", c.name);
+                    let mut new = format!("_{}", c.name);
+                    while captures.iter().any(|x| x.name == new) {
+                        new.push('2');
+                    }
                     query = rename_capture(&query, &c.name, &new);
                     for cap in captures.iter_mut() {
                         if cap.name == c.name {
